@@ -11,7 +11,18 @@ use dashu_int::{fast_div::ConstDivisor, IBig, UBig};
 use dashu_ratio::{RBig, Relaxed};
 use std::panic::{catch_unwind, AssertUnwindSafe};
 
-pub const SWEEPS: &[&str] = &["int.pairs", "int.unary", "int.text", "float.ops", "ratio.ops", "serde", "log2"];
+pub const SWEEPS: &[&str] = &["int.pairs", "int.unary", "int.text", "float.ops", "ratio.ops", "serde", "log2", "int.sparse", "text.struct"];
+
+/// int.sparse: every integer 2^a + 2^(a-d1) + 2^(a-d2) with a <= SPARSE_A, d1 <= d2 <= SPARSE_D (equal
+/// offsets merge, so one- and two-bit values and carries into bit a+1 are included): the bits that
+/// decide rounding, sticky bits and table look-ups of the conversions sit at every offset below the
+/// top bit, in every word-size-dependent representation (inline / heap) of both builds
+/// text.struct: digit strings of every length 1..=70 (300 thorough) x 5 digit patterns in 8 radixes:
+/// parsed (plain, signed, prefixed), and as significands of floats (exactly `precision` digits, next
+/// to a power of the base) through the serde media
+const TS_RADIX: [u32; 8] = [2, 4, 8, 16, 32, 10, 3, 36];
+const SPARSE_A: u64 = 136;
+const SPARSE_D: u64 = 67;
 
 const PATS: [&str; 6] = ["ones", "top1", "alt", "sparse", "lcgA", "lcgB"];
 
@@ -139,6 +150,8 @@ pub fn count(sweep: &str, thorough: bool) -> u64 {
         "ratio.ops" => ratio_vals().len() as u64 * ratio_vals().len() as u64,
         "serde" => n,
         "log2" => n + 4096,
+        "int.sparse" => (SPARSE_A + if thorough { 120 } else { 0 }) * SPARSE_D * SPARSE_D,
+        "text.struct" => TS_RADIX.len() as u64 * if thorough { 300 } else { 70 } * 5,
         _ => 0,
     }
 }
@@ -334,6 +347,110 @@ pub fn eval(sweep: &str, thorough: bool, i: u64) -> String {
                         && serde_json::from_str::<FBig<mode::HalfEven, 10>>(&jf).unwrap() == f
                         && postcard::from_bytes::<FBig<mode::HalfEven, 10>>(&pf).unwrap() == f;
                     format!("ju{} ji{} pu{} pi{} jr{} pr{} jf{} pf{} le{} roundtrip:{}", fp(ju.as_bytes()), fp(ji.as_bytes()), fp(&pu), fp(&pi), fp(jr.as_bytes()), fp(&pr), fp(jf.as_bytes()), fp(&pf), fp(&ia.to_le_bytes()), back)
+                })
+        }
+        "text.struct" => {
+            let pat = i % 5;
+            let n = ((i / 5) % if thorough { 300 } else { 70 }) as usize + 1;
+            let r = TS_RADIX[(i / 5 / if thorough { 300 } else { 70 }) as usize];
+            let dig = |d: u32| core::char::from_digit(d, r).unwrap();
+            let (mx, one, zero) = (dig(r - 1), dig(1), dig(0));
+            let mut t: Vec<char> = match pat {
+                0 => vec![mx; n],
+                1 => core::iter::once(one).chain(core::iter::repeat(zero).take(n - 1)).collect(),
+                2 => core::iter::once(mx).chain(core::iter::repeat(zero).take(n - 1)).collect(),
+                3 => core::iter::once(one).chain(core::iter::repeat(mx).take(n - 1)).collect(),
+                _ => vec![mx; n],
+            };
+            if pat == 4 {
+                t[n - 1] = dig(r - 2);
+            }
+            let text: String = t.into_iter().collect();
+            format!("r{} n{} p{} => ", r, n, pat)
+                + &run(|| {
+                    let u = UBig::from_str_radix(&text, r);
+                    let neg = format!("-{}", text);
+                    let ineg = IBig::from_str_radix(&neg, r);
+                    let mut s = format!("u:{} i:{} ", u.as_ref().map(hu).unwrap_or("Err".into()), ineg.as_ref().map(hi).unwrap_or("Err".into()));
+                    let prefix = match r {
+                        2 => Some("0b"),
+                        8 => Some("0o"),
+                        16 => Some("0x"),
+                        _ => None,
+                    };
+                    if let Some(pf) = prefix {
+                        let lit = format!("{}{}", pf, text);
+                        s += &format!("pfx:{} ", UBig::from_str_with_radix_prefix(&lit).map(|(v, rr)| format!("{}@{}", hu(&v), rr)).unwrap_or("Err".into()));
+                        s += &format!("ipfx:{} ", IBig::from_str_with_radix_prefix(&format!("-{}", lit)).map(|(v, rr)| format!("{}@{}", hi(&v), rr)).unwrap_or("Err".into()));
+                        s += &format!("json:{} ", serde_json::from_str::<UBig>(&format!("\"{}\"", lit)).map(|v| hu(&v)).unwrap_or("Err".into()));
+                    }
+                    if let Ok(v) = u {
+                        // the same digits as a float significand with exactly n digits of precision
+                        macro_rules! media {
+                            ($B:literal) => {{
+                                let f = FBig::<mode::HalfEven, $B>::from_parts(IBig::from(v.clone()), -2);
+                                let pc = postcard::to_allocvec(&f).unwrap();
+                                let js = serde_json::to_string(&f).unwrap();
+                                // "decode to an equal number": the value is judged; whether the precision survives
+                                // is part of the line (so it must at least be the same in all configurations)
+                                let g1 = postcard::from_bytes::<FBig<mode::HalfEven, $B>>(&pc);
+                                let g2 = serde_json::from_str::<FBig<mode::HalfEven, $B>>(&js);
+                                let (b1, b2) = (g1.as_ref().map(|g| *g == f).map_err(|_| "Err"), g2.as_ref().map(|g| *g == f).map_err(|_| "Err"));
+                                let (p1, p2) = (g1.as_ref().map(|g| g.precision()).unwrap_or(0), g2.as_ref().map(|g| g.precision()).unwrap_or(0));
+                                s += &format!("fprec{} pc:{:?} js:{:?} precs:{},{} ", f.precision(), b1, b2, p1, p2);
+                            }};
+                        }
+                        match r {
+                            2 => media!(2),
+                            10 => media!(10),
+                            16 => media!(16),
+                            3 => media!(3),
+                            _ => {}
+                        }
+                    }
+                    s
+                })
+        }
+        "int.sparse" => {
+            let d2 = i % SPARSE_D;
+            let d1 = (i / SPARSE_D) % SPARSE_D;
+            let a = i / (SPARSE_D * SPARSE_D);
+            if d2 < d1 || d2 > a {
+                return "skip".into();
+            }
+            let v = (UBig::ONE << a as usize) + (UBig::ONE << (a - d1) as usize) + (UBig::ONE << (a - d2) as usize);
+            format!("2^{}+2^{}+2^{} => ", a, a - d1, a - d2)
+                + &run(|| {
+                    let iv = -IBig::from(v.clone());
+                    let mut s = format!("f32:{:?} f64:{:?} if32:{:?} if64:{:?} ", v.to_f32(), v.to_f64(), iv.to_f32(), iv.to_f64());
+                    // exact enclosure of log2(v) from the three terms
+                    let t = a as f64 + (1.0 + 0.5f64.powi(d1 as i32) + 0.5f64.powi(d2 as i32)).log2();
+                    let chk = |name: &str, (lb, ub): (f32, f32), t: f64| -> String {
+                        let ok = (lb as f64) <= t + 1e-9 * t.abs().max(1.0) && (ub as f64) >= t - 1e-9 * t.abs().max(1.0);
+                        if ok { format!("{}:ok ", name) } else { format!("{}:BAD[{:e},{:e}] true {:e} ", name, lb, ub, t) }
+                    };
+                    s += &chk("ubig", v.log2_bounds(), t);
+                    s += &chk("ibig", iv.log2_bounds(), t);
+                    if let Ok(w) = u128::try_from(&v) {
+                        s += &chk("u128", w.log2_bounds(), t);
+                        if w > 1 {
+                            s += &chk("i128", (-((w >> 1) as i128)).log2_bounds(), ((w >> 1) as f64).log2());
+                        }
+                    }
+                    if let Ok(w) = u64::try_from(&v) {
+                        s += &chk("u64", w.log2_bounds(), t);
+                        s += &chk("usize", (w as usize).log2_bounds(), t);
+                    }
+                    if let Ok(w) = u32::try_from(&v) {
+                        s += &chk("u32", w.log2_bounds(), t);
+                    }
+                    let f = Repr::<2>::new(IBig::from(v.clone()), -3);
+                    s += &chk("repr2", f.log2_bounds(), t - 3.0);
+                    let x: FBig<mode::HalfEven, 2> = FBig::from(v.clone());
+                    s += &format!("ff32:{:?} ff64:{:?} ", x.to_f32(), x.to_f64());
+                    let r = RBig::from_parts(IBig::from(v.clone()), UBig::from(3u8));
+                    s += &format!("rf32:{:?} rf64:{:?} bits{} tz{:?}", r.to_f32(), r.to_f64(), v.bit_len(), v.trailing_zeros());
+                    s
                 })
         }
         "log2" => {
